@@ -426,6 +426,9 @@ func staticAssignComps(con *Contract, callee *ssa.Function) []string {
 			if x.Name == "file" {
 				out = append(out, "FILE")
 			}
+			if x.Name == "ghost" {
+				out = append(out, "GHOST")
+			}
 		}
 	}
 	return out
